@@ -36,7 +36,14 @@ Inductive cls :=
   | C_UserGroup            (* class UserGroup(ExceptionGroup) *)
   | C_UserBaseGroup        (* class UserBaseGroup(BaseExceptionGroup) *)
   | C_UserProxy            (* class UserProxy(KeyError) whose instances answer __class__ with LookupError *)
-  | C_UserMeta.            (* class UserMeta(ArithmeticError, metaclass=...) *)
+  | C_UserMeta             (* class UserMeta(ArithmeticError, metaclass=...) *)
+  (* Distinct classes that carry the SAME __module__, __qualname__ and __name__ (made by one factory function with
+     different bases, or called like a builtin): a class is the class OBJECT - isinstance walks the bases of the
+     object's type, names play no part - so each is one more node of the hierarchy. *)
+  | C_TwinKeyError         (* make_twin(KeyError):   class Twin(KeyError) *)
+  | C_TwinValueError       (* make_twin(ValueError): class Twin(ValueError) *)
+  | C_TwinExit             (* make_twin(SystemExit): class Twin(SystemExit) *)
+  | C_ShadowValueError.    (* class ValueError(OSError) with __module__ = 'builtins': not the builtin ValueError *)
 
 Definition cls_tag (c : cls) : N :=
   match c with
@@ -47,6 +54,7 @@ Definition cls_tag (c : cls) : N :=
   | C_StopIteration => 17 | C_UserError => 18 | C_UserKeyError => 19 | C_UserBase => 20 | C_UserExit => 21
   | C_BaseExceptionGroup => 22 | C_ExceptionGroup => 23 | C_UserGroup => 24 | C_UserBaseGroup => 25
   | C_UserProxy => 26 | C_UserMeta => 27
+  | C_TwinKeyError => 28 | C_TwinValueError => 29 | C_TwinExit => 30 | C_ShadowValueError => 31
   end.
 Definition cls_eqb (a b : cls) : bool := N.eqb (cls_tag a) (cls_tag b).
 
@@ -60,11 +68,11 @@ Definition parents (c : cls) : list cls :=
   | C_StopIteration | C_UserError => [C_Exception]
   | C_ZeroDivisionError | C_UserMeta => [C_ArithmeticError]
   | C_KeyError | C_IndexError => [C_LookupError]
-  | C_UnicodeError => [C_ValueError]
-  | C_FileNotFoundError => [C_OSError]
+  | C_UnicodeError | C_TwinValueError => [C_ValueError]
+  | C_FileNotFoundError | C_ShadowValueError => [C_OSError]
   | C_RecursionError => [C_RuntimeError]
-  | C_UserKeyError | C_UserProxy => [C_KeyError]
-  | C_UserExit => [C_SystemExit]
+  | C_UserKeyError | C_UserProxy | C_TwinKeyError => [C_KeyError]
+  | C_UserExit | C_TwinExit => [C_SystemExit]
   | C_ExceptionGroup => [C_BaseExceptionGroup; C_Exception]
   | C_UserGroup => [C_ExceptionGroup]
   | C_UserBaseGroup => [C_BaseExceptionGroup]
@@ -216,7 +224,12 @@ Definition count_exceptions (c : mid) (arg : option espec) : wrapper :=
 
 (* What `wrapped(func, *args, **kwargs)` (decorator use) or `with m.xxx():` (block use) enters:
    ExceptionCounter / InprogressTracker enter themselves; Timer enters self._new_timer(), and m.time()
-   constructs a new Timer, so either way a Timer object nobody else holds. *)
+   constructs a new Timer, so either way a Timer object nobody else holds.
+   ExceptionCounter and InprogressTracker carry nothing but (metric, configuration), neither of which changes after
+   construction: the context a wrapper enters is a function of the wrapper alone, whichever ExceptionCounter /
+   InprogressTracker object (a new one, or one the application kept and already used - as a with-block manager or
+   as the decorator around a function called again and again) it is entered through.  So `Call w b` also stands
+   for the n-th use of one shared wrapper object, with whatever history of escaped exception classes. *)
 Definition make_cm (w : wrapper) (s : st) : cm * st :=
   match w with
   | WCount c excs => (CmCount c excs, s)
